@@ -448,6 +448,8 @@ def rule_tabs(ctx, res):
     for p in sym.run(lp.body, env):
         n_paths += 1
         sep = none = eq = None
+        seps = set()
+        unrec = []
         for (t, val) in p.conds:
             t2, v2 = t, val
             while isinstance(t2, ast.UnaryOp) and isinstance(t2.op, ast.Not):
@@ -461,6 +463,7 @@ def rule_tabs(ctx, res):
                     sep = not v2
                 else:
                     sep = v2
+                seps.add(sep)
             elif tt == sel + ' is None':
                 none = v2
             elif tt == sel + ' is not None':
@@ -472,7 +475,13 @@ def rule_tabs(ctx, res):
                         '{} != {}'.format(cnt, sel)):
                 eq = not v2
             else:
-                problems.append('unrecognised test ' + tt[:50])
+                unrec.append('unrecognised test ' + tt[:50])
+        if len(seps) > 1:
+            # the same (pure) match on the same line decided both ways: not a
+            # path of the function
+            n_paths -= 1
+            continue
+        problems.extend(unrec)
         if sep is None:
             problems.append('a line is handled without the separator test')
             continue
